@@ -77,6 +77,7 @@ func fnExec(ctx *cmdContext, args map[string]any) (output respValue, err error) 
 		// use the multi command id instead of each queued command's id,
 		// so that the commands won't try to acquire a lock that we already own
 		cc.dsc.id = ctx.dsc.id
+		verifPoint("exec:between-commands", ctx.cs.id, "")
 		results = append(results, ctx.cd.dispatchHandler(cc))
 	}
 
